@@ -16,6 +16,10 @@ class NeedDecision(BaseException):
         self.kind, self.info = kind, info
 
 
+class Pruned(BaseException):
+    """A forced branch whose probability is (numerically) zero: the real code cannot take it."""
+
+
 class Probe(float):
     """The value returned by ForcedRng.random(): comparing it with a threshold records the threshold and answers as the
     script dictates (jump: random < threshold)."""
@@ -26,7 +30,10 @@ class Probe(float):
         return o
 
     def _thr(self, other):
-        self.sink(float(np.real(np.asarray(other))))
+        thr = float(np.real(np.asarray(other)))
+        self.sink(thr)
+        if (self.decision == "J" and thr < 1e-14) or (self.decision != "J" and thr > 1 - 1e-14):
+            raise Pruned
 
     def __ge__(self, other):
         self._thr(other)
@@ -79,6 +86,8 @@ def enumerate_tree(run_with_rng, max_leaves=600):
         rng = ForcedRng(script)
         try:
             res = run_with_rng(rng)
+        except Pruned:
+            continue
         except NeedDecision as nd:
             if nd.kind == "random":
                 stack.append(script + ["N"])
